@@ -49,7 +49,12 @@ def run(ctx):
     want = ["0", "m", "GET", [], "undefined", "caught", ["Content-Type"], ["Content-Type"], "42", "1", "own-names", "early-report"]
     v0 = base[0]["val"]["v"]
     got0 = [v0[0].get("s"), v0[1].get("v"), v0[2].get("v"), v0[3].get("k"), v0[4].get("v"), v0[5].get("v"), v0[6].get("k"), v0[7].get("k"), v0[8].get("s"), v0[9].get("s"), v0[10].get("v") or v0[10], "early-report" if (v0[11].get("t") == "str" and "早三" in v0[11]["v"] and "早一" in v0[11]["v"]) else v0[11]]
-    if got0 != want:
+    if got0[:11] == want[:11] and got0[11] != want[11]:
+        # the twelfth observation involves executions even in the empty sequence (the early failing execution, then the probe programs, then
+        # the rendering): a report that no longer describes the early execution is a violation, not a broken probe
+        common.report(ctx, "seq:error-report-of-an-earlier-execution:no-polluter", "the error of an execution that failed three calls deep (in 早三, called from a type method, called from 早一), rendered after the probe programs "
+                      "had run in the same process, reads: %s" % str(got0[11])[:400], dict(probe=base[0]))
+    elif got0 != want:
         raise common.NoVerdict("pristine probe observation %s differs from the expected %s" % (got0, want))
     # vacuity guard: the polluters must do what the spec's Effect() says they do (run to completion; failDeep fails three calls
     # deep; redefLib is refused by the constructor guard)
